@@ -11,7 +11,12 @@ pub mod prng;
 pub mod report;
 pub mod tokrec;
 pub mod tree;
+pub mod valloc;
 pub mod xdrive;
+
+#[cfg(not(any(miri, feature = "no_valloc")))]
+#[global_allocator]
+static GLOBAL: valloc::VAlloc = valloc::VAlloc;
 
 use std::io::Write;
 use std::path::PathBuf;
@@ -44,7 +49,7 @@ pub fn stdout_real(f: impl FnOnce(&mut dyn Write)) {
     let mut g = REAL_STDOUT.lock().unwrap();
     match g.as_mut() {
         Some(file) => f(file),
-        None => f(&mut std::io::stderr()),
+        None => f(&mut std::io::stdout()),
     }
 }
 
@@ -52,6 +57,8 @@ pub fn stdout_real(f: impl FnOnce(&mut dyn Write)) {
 pub enum Tier {
     Quick,
     Thorough,
+    /// small workloads for Miri / ASan / TSan legs
+    Sanitizer,
 }
 
 #[derive(Clone, Debug)]
@@ -68,10 +75,15 @@ pub struct Args {
 }
 
 impl Args {
+    /// workload size for the sanitizer tier (histories per process), overridable by VERIF_SAN_N
+    pub fn san_n(&self, default: u64) -> u64 {
+        std::env::var("VERIF_SAN_N").ok().and_then(|s| s.parse().ok()).unwrap_or(default)
+    }
     pub fn tier_name(&self) -> &'static str {
         match self.tier {
             Tier::Quick => "quick",
             Tier::Thorough => "thorough",
+            Tier::Sanitizer => "sanitizer",
         }
     }
     pub fn deadline(&self) -> Instant {
@@ -97,6 +109,7 @@ fn main() {
         id: argv[1].clone(),
         tier: match std::env::var("VERIF_TIER").as_deref() {
             Ok("thorough") => Tier::Thorough,
+            Ok("sanitizer") => Tier::Sanitizer,
             _ => Tier::Quick,
         },
         seed: std::env::var("VERIF_SEED").ok().and_then(|s| s.parse::<i64>().ok()).map(|x| x as u64).unwrap_or(1),
@@ -111,7 +124,11 @@ fn main() {
         match argv[i].as_str() {
             "--tier" => {
                 i += 1;
-                args.tier = if argv[i] == "thorough" { Tier::Thorough } else { Tier::Quick };
+                args.tier = match argv[i].as_str() {
+                    "thorough" => Tier::Thorough,
+                    "sanitizer" => Tier::Sanitizer,
+                    _ => Tier::Quick,
+                };
             },
             "--seed" => {
                 i += 1;
@@ -132,9 +149,15 @@ fn main() {
     args.budget = std::env::var("VERIF_BUDGET_S")
         .ok()
         .and_then(|s| s.parse().ok())
-        .unwrap_or(if args.tier == Tier::Quick { 20.0 } else { 300.0 });
+        .unwrap_or(match args.tier {
+            Tier::Quick => 20.0,
+            Tier::Thorough => 300.0,
+            Tier::Sanitizer => 1.0e9,
+        });
 
-    redirect_stdout();
+    if !cfg!(miri) {
+        redirect_stdout();
+    }
     report::install_panic_hook();
     let code = checks::dispatch(&args);
     std::process::exit(code);
